@@ -15,6 +15,15 @@
 //	txsubmit   q* = SubmitTx(bytes(tag)) -> accepted iff tag is even, the reject reason carries the tag
 //	peershare  q* = GetPeers(tag) -> tag peers, all with port = tag
 //
+// Reply FORM (spec: FormOf, onop). The reject reasons of txsubmit come in every form the client's handler
+// distinguishes: a text, a generic structure, a typed era mismatch (plain forms, chosen by the tag), and - op
+// "qx" - OPAQUE forms: well-formed CBOR that starts with the tag and that ledger.NewTxSubmitErrorFromCbor refuses
+// (a registered CBOR tag around content of the wrong type). On lsq, qx = GetStakeDelegDeposits([credX(tag)]),
+// which the server answers with a text instead of a map (the typed result decoder refuses it). What the client
+// does with an opaque reply is observed (connection alive: "raw", connection failed: "fail") and the row's
+// expectation for that kind of client is used (row.out / row.alt, both from the model). tx-monitor and
+// peer-sharing replies cannot be made opaque through the library's server: rows with qx are not replayed there.
+//
 // The driver issues the invocations in the order of the row's history and does
 // not issue an invocation that follows a return in the history before that call
 // has really returned (the happens-before order of the TLC behaviour), with
@@ -74,12 +83,15 @@ type row struct {
 	Idx   int        `json:"idx"`
 	Rseed *int64     `json:"rseed,omitempty"`
 	Proto string     `json:"proto,omitempty"` // replay: only this protocol
+	Onop  string     `json:"onop,omitempty"`  // the kind of client row.out was computed for: "raw" | "fail" (opaque replies)
+	Alt   [][]outRec `json:"alt,omitempty"`   // the model's out for the other kind of client (same programs, sequential)
 }
 
 // what one call showed
 type obs struct {
 	err     string // the call returned an error
 	foreign string // the value cannot be the answer to this call's request
+	opaque  bool   // the call reported its own reply undecoded (raw bytes or a decode error) on a live connection
 	session int    // session value carried by the reply (-1: none)
 	next    int    // tx-monitor NextTx: index of the returned mempool tx, -1 = none
 	desc    string
@@ -90,6 +102,7 @@ type endpoint interface {
 	supports(op string) bool
 	stop()
 	lastErr() string
+	dead() bool // the client's protocol has shut down
 }
 
 var discard = slog.New(slog.NewTextHandler(io.Discard, nil))
@@ -133,6 +146,15 @@ func (c *conn) lastErr() string {
 	c.lastMu.Lock()
 	defer c.lastMu.Unlock()
 	return c.last
+}
+
+func isDone(p *protocol.Protocol) bool {
+	select {
+	case <-p.DoneChan():
+		return true
+	case <-time.After(300 * time.Millisecond):
+		return false
+	}
 }
 
 func (c *conn) start() { c.ma.Start(); c.mb.Start() }
@@ -210,6 +232,17 @@ func credOf(tag int) lsq.StakeCredential {
 	return lsq.StakeCredential{Tag: 0, Bytes: h}
 }
 
+// credX: the credential of a qx request: the server answers it with a value of the wrong type
+func credX(tag int) lsq.StakeCredential {
+	c := credOf(tag)
+	c.Bytes[2], c.Bytes[3] = 0xEE, 0xEE
+	return c
+}
+
+func isCredX(c lsq.StakeCredential) bool {
+	return c.Bytes[2] == 0xEE && c.Bytes[3] == 0xEE && c != credOf(int(c.Bytes[0])<<8|int(c.Bytes[1]))
+}
+
 func (e *lsqEnd) session() uint64 {
 	e.smu.Lock()
 	defer e.smu.Unlock()
@@ -259,6 +292,10 @@ func newLsq(seed int64) endpoint {
 				case *lsq.ShelleyStakeDelegDepositsQuery:
 					m := map[lsq.StakeCredential]uint64{}
 					for _, c := range sq.Creds.Items() {
+						if isCredX(c) {
+							// opaque form: a text where the client's typed decoder wants [ {cred: coin} ]
+							return fmt.Sprintf("tag-%d", int(c.Bytes[0])<<8|int(c.Bytes[1])), nil
+						}
 						m[c] = e.session()
 					}
 					return []any{m}, nil
@@ -288,6 +325,7 @@ func newLsq(seed int64) endpoint {
 }
 
 func (e *lsqEnd) supports(string) bool { return true }
+func (e *lsqEnd) dead() bool           { return isDone(e.client.Protocol) }
 
 func pointOf(p int) *pcommon.Point {
 	h := bytes.Repeat([]byte{byte(p)}, 32)
@@ -346,6 +384,22 @@ func (e *lsqEnd) call(op string, tag int) obs {
 			return errObs(err)
 		}
 		return obs{session: era, next: -1}
+	case "qx":
+		res, err := e.client.GetStakeDelegDeposits([]lsq.StakeCredential{credX(tag)})
+		if err != nil {
+			if errors.Is(err, protocol.ErrProtocolShuttingDown) || e.dead() {
+				return errObs(err)
+			}
+			// the connection is alive: the call reports that its reply does not decode
+			return obs{opaque: true, session: -1, next: -1, desc: err.Error()}
+		}
+		if res == nil || len(*res) != 1 {
+			return obs{foreign: fmt.Sprintf("deposits result has %d entries, the server answered this request with a text", lenOrNil(res)), session: -1, next: -1}
+		}
+		if _, ok := (*res)[credX(tag)]; !ok {
+			return obs{foreign: "deposits result is for another credential (the server answered this request with a text)", session: -1, next: -1}
+		}
+		return obs{foreign: "deposits result decoded although the server answered this request with a text", session: -1, next: -1}
 	}
 	return obs{err: "driver: unknown op " + op, session: -1, next: -1}
 }
@@ -402,7 +456,8 @@ func newTxmon(seed int64) endpoint {
 	return e
 }
 
-func (e *txmonEnd) supports(string) bool { return true }
+func (e *txmonEnd) supports(op string) bool { return op != "qx" }
+func (e *txmonEnd) dead() bool              { return isDone(e.client.Protocol) }
 
 func (e *txmonEnd) call(op string, tag int) obs {
 	switch op {
@@ -551,7 +606,8 @@ func newPeer(seed int64) endpoint {
 	return e
 }
 
-func (e *peerEnd) supports(op string) bool { return strings.HasPrefix(op, "q") }
+func (e *peerEnd) supports(op string) bool { return strings.HasPrefix(op, "q") && op != "qx" }
+func (e *peerEnd) dead() bool              { return isDone(e.client.Protocol) }
 
 func (e *peerEnd) call(op string, tag int) obs {
 	peers, err := e.client.GetPeers(uint8(tag))
